@@ -104,10 +104,31 @@ struct Report
     auto & m = maxerr[label];
     if (!(err <= m)) m = err;  // also records NaN
   }
-  void fail(const std::string & json)
+  // failures are kept per key: the first two of each kind plus the ones with the smallest and the largest
+  // characteristic magnitude, so that a failure outside a known region can never be hidden by ones inside it
+  std::map<std::string, long> fail_by_key;
+  std::map<std::string, std::pair<double, double>> fail_range;  // key -> (min,max) of the magnitude
+  std::map<std::string, std::pair<std::string, std::string>> fail_extreme;
+  void fail(const std::string & json, const std::string & key = "", double mag = 0)
   {
     ++nfail;
-    if (failures.size() < 20) failures.push_back(json);
+    long & k = fail_by_key[key];
+    ++k;
+    auto it = fail_range.find(key);
+    if (it == fail_range.end()) {
+      fail_range[key]   = {mag, mag};
+      fail_extreme[key] = {json, json};
+    } else {
+      if (mag < it->second.first) {
+        it->second.first       = mag;
+        fail_extreme[key].first = json;
+      }
+      if (mag > it->second.second) {
+        it->second.second       = mag;
+        fail_extreme[key].second = json;
+      }
+    }
+    if (k <= 2 && failures.size() < 60) failures.push_back(json);
   }
   void sample(const std::string & json)
   {
@@ -136,8 +157,24 @@ struct Report
       std::printf("%s\"%s\":\"%.3e\"", f ? "" : ",", kv.first.c_str(), kv.second);
       f = false;
     }
+    std::printf("},\"fail_by_key\":{");
+    f = true;
+    for (auto & kv : fail_by_key) {
+      auto r = fail_range.at(kv.first);
+      std::printf("%s\"%s\":{\"n\":%ld,\"min\":%.6e,\"max\":%.6e}", f ? "" : ",", kv.first.c_str(), kv.second, r.first, r.second);
+      f = false;
+    }
     std::printf("},\"failures\":[");
-    for (size_t i = 0; i < failures.size(); ++i) std::printf("%s%s", i ? "," : "", failures[i].c_str());
+    {
+      std::vector<std::string> all = failures;
+      for (auto & kv : fail_extreme) {
+        if (fail_by_key.at(kv.first) > 2) {
+          all.push_back(kv.second.first);
+          if (kv.second.second != kv.second.first) all.push_back(kv.second.second);
+        }
+      }
+      for (size_t i = 0; i < all.size(); ++i) std::printf("%s%s", i ? "," : "", all[i].c_str());
+    }
     std::printf("],\"samples\":[");
     for (size_t i = 0; i < samples.size(); ++i) std::printf("%s%s", i ? "," : "", samples[i].c_str());
     std::printf("]}\n");
